@@ -361,6 +361,8 @@ class ConvexSpheropolyhedron(Shape3D):
         self._polyhedron.centroid = np.array([0, 0, 0])
         data = self.to_json(["vertices", "radius", "volume"])
         hoomd_dict = _map_dict_keys(data, key_mapping=_hoomd_dict_mapping)
+        # The shape is moved back below: return the centered vertices, not the live array.
+        hoomd_dict["vertices"] = hoomd_dict["vertices"].copy()
         hoomd_dict["centroid"] = [0, 0, 0]
 
         self._polyhedron.centroid = old_centroid
